@@ -2568,8 +2568,21 @@ fn compare_int_float(i: i64, f: f64) -> Ordering {
     if f.is_nan() {
         return Ordering::Less;
     }
-    let i_as_f = i as f64;
-    i_as_f.partial_cmp(&f).unwrap_or(Ordering::Equal)
+    // `i as f64` rounds beyond 2^53, so compare exactly: place f against the i64 range,
+    // then compare i with f's integral part (exact as i64) and let the fraction decide.
+    if f >= 9_223_372_036_854_775_808.0 {
+        return Ordering::Less;
+    }
+    if f < -9_223_372_036_854_775_808.0 {
+        return Ordering::Greater;
+    }
+    let truncated = f.trunc();
+    match i.cmp(&(truncated as i64)) {
+        Ordering::Equal => 0.0f64
+            .partial_cmp(&(f - truncated))
+            .unwrap_or(Ordering::Equal),
+        other => other,
+    }
 }
 
 fn compare_float_int(f: f64, i: i64) -> Ordering {
